@@ -88,42 +88,42 @@ def Plane3.distanceTo {α : Type} [Add α] [Sub α] [Mul α] (pl : Plane3 α) (p
   ((((p.x * pl.normal.x) + (p.y * pl.normal.y)) + (p.z * pl.normal.z)) - pl.distance)
 
 /-- extracted from the C++ template at T = Sym; 1 path(s) -/
-def Plane3.reflectPoint {α : Type} [Add α] [Sub α] [Mul α] [OfNat α 2] (pl : Plane3 α) (p : V3 α) : (V3 α) :=
+def Plane3.reflectPoint {α : Type} [Add α] [Sub α] [Mul α] [Neg α] [OfNat α 2] (pl : Plane3 α) (p : V3 α) : (V3 α) :=
   let t776 := ((((p.x * pl.normal.x) + (p.y * pl.normal.y)) + (p.z * pl.normal.z)) - pl.distance)
-  ⟨(((pl.normal.x * t776) * (2 : α)) + p.x), (((pl.normal.y * t776) * (2 : α)) + p.y), (((pl.normal.z * t776) * (2 : α)) + p.z)⟩
+  ⟨(((pl.normal.x * t776) * (-(2 : α))) + p.x), (((pl.normal.y * t776) * (-(2 : α))) + p.y), (((pl.normal.z * t776) * (-(2 : α))) + p.z)⟩
 
 /-- extracted from the C++ template at T = Sym; 1 path(s) -/
 def Plane3.reflectVector {α : Type} [Add α] [Sub α] [Mul α] [OfNat α 2] (pl : Plane3 α) (v : V3 α) : (V3 α) :=
-  let t793 := (((pl.normal.x * v.x) + (pl.normal.y * v.y)) + (pl.normal.z * v.z))
-  ⟨(((pl.normal.x * t793) * (2 : α)) - v.x), (((pl.normal.y * t793) * (2 : α)) - v.y), (((pl.normal.z * t793) * (2 : α)) - v.z)⟩
+  let t794 := (((pl.normal.x * v.x) + (pl.normal.y * v.y)) + (pl.normal.z * v.z))
+  ⟨(((pl.normal.x * t794) * (2 : α)) - v.x), (((pl.normal.y * t794) * (2 : α)) - v.y), (((pl.normal.z * t794) * (2 : α)) - v.z)⟩
 
 /-- extracted from the C++ template at T = Sym; 2 path(s) -/
 def Plane3.intersect {α : Type} [Add α] [Sub α] [Mul α] [Div α] [Neg α] [DecidableEq α] [OfNat α 0] (pl : Plane3 α) (l : Line3 α) : (Bool × (V3 α)) :=
-  let t807 := (((pl.normal.x * l.dir.x) + (pl.normal.y * l.dir.y)) + (pl.normal.z * l.dir.z))
-  let t815 := ((-((((pl.normal.x * l.pos.x) + (pl.normal.y * l.pos.y)) + (pl.normal.z * l.pos.z)) - pl.distance)) / t807)
-  if t807 = (0 : α) then
+  let t808 := (((pl.normal.x * l.dir.x) + (pl.normal.y * l.dir.y)) + (pl.normal.z * l.dir.z))
+  let t816 := ((-((((pl.normal.x * l.pos.x) + (pl.normal.y * l.pos.y)) + (pl.normal.z * l.pos.z)) - pl.distance)) / t808)
+  if t808 = (0 : α) then
     (false, ⟨(0 : α), (0 : α), (0 : α)⟩)
   else
-    (true, ⟨(l.pos.x + (l.dir.x * t815)), (l.pos.y + (l.dir.y * t815)), (l.pos.z + (l.dir.z * t815))⟩)
+    (true, ⟨(l.pos.x + (l.dir.x * t816)), (l.pos.y + (l.dir.y * t816)), (l.pos.z + (l.dir.z * t816))⟩)
 
 /-- extracted from the C++ template at T = Sym; 2 path(s) -/
 def Plane3.intersectT {α : Type} [Add α] [Sub α] [Mul α] [Div α] [Neg α] [DecidableEq α] [OfNat α 0] (pl : Plane3 α) (l : Line3 α) : (Bool × α) :=
-  let t807 := (((pl.normal.x * l.dir.x) + (pl.normal.y * l.dir.y)) + (pl.normal.z * l.dir.z))
-  if t807 = (0 : α) then
+  let t808 := (((pl.normal.x * l.dir.x) + (pl.normal.y * l.dir.y)) + (pl.normal.z * l.dir.z))
+  if t808 = (0 : α) then
     (false, (0 : α))
   else
-    (true, ((-((((pl.normal.x * l.pos.x) + (pl.normal.y * l.pos.y)) + (pl.normal.z * l.pos.z)) - pl.distance)) / t807))
+    (true, ((-((((pl.normal.x * l.pos.x) + (pl.normal.y * l.pos.y)) + (pl.normal.z * l.pos.z)) - pl.distance)) / t808))
 
 /-- extracted from the C++ template at T = Sym; 2 path(s) -/
 def Plane3.neg {α : Type} [Add α] [Mul α] [Div α] [Neg α] [LT α] [LE α] [DecidableLT α] [DecidableLE α] [DecidableEq α] [OfNat α 0] [OfNat α 2] (tmin : α) (sqrt : α → α) (pl : Plane3 α) : (Plane3 α) :=
-  let t822 := (-pl.distance)
-  let t823 := (-pl.normal.z)
-  let t824 := (-pl.normal.y)
-  let t825 := (-pl.normal.x)
-  let t826 := (V3.length tmin sqrt ⟨t825, t824, t823⟩)
-  if t826 = (0 : α) then
-    ⟨⟨t825, t824, t823⟩, t822⟩
+  let t823 := (-pl.distance)
+  let t824 := (-pl.normal.z)
+  let t825 := (-pl.normal.y)
+  let t826 := (-pl.normal.x)
+  let t827 := (V3.length tmin sqrt ⟨t826, t825, t824⟩)
+  if t827 = (0 : α) then
+    ⟨⟨t826, t825, t824⟩, t823⟩
   else
-    ⟨⟨(t825 / t826), (t824 / t826), (t823 / t826)⟩, t822⟩
+    ⟨⟨(t826 / t827), (t825 / t827), (t824 / t827)⟩, t823⟩
 
 end ImathVerif.Gen
